@@ -11,6 +11,7 @@ import (
 	"encoding/json"
 	"flag"
 	"fmt"
+	"go/types"
 	"os"
 	"os/exec"
 	"path/filepath"
@@ -401,6 +402,10 @@ func main() {
 			fatal(fmt.Errorf("run <pkg> <func>"))
 		}
 		doRun(fs.Arg(0), fs.Arg(1), *workers, *trace, *assign, *maxpaths)
+	case "deps":
+		// deps: which unexported identifiers of the repository the harnesses name (a rename of one
+		// of these makes a harness stop compiling: the check then answers INCONCLUSIVE, not VIOLATION)
+		doDeps()
 	case "crosscheck":
 		// crosscheck <ID> [maxpaths]: explore every quick harness of the property (capped) with
 		// z3 4.8.12, z3 5.1.0 and cvc5 and compare what they decide
@@ -493,7 +498,7 @@ func doCrosscheck(id string, maxpaths int) int {
 		f := l.pkgs[h.Pkg].Func(h.Func)
 		type sum struct {
 			paths, completed, infeasible, sat, unsat, unknown, errors, viol int
-			secs                                                       float64
+			secs                                                            float64
 		}
 		var got []sum
 		var verdicts []map[uint64]sym.Result
@@ -547,6 +552,73 @@ func doCrosscheck(id string, maxpaths int) int {
 		return 1
 	}
 	return 0
+}
+
+func doDeps() {
+	hs, files, err := scanHarnesses()
+	if err != nil {
+		fatal(err)
+	}
+	relSet := map[string]bool{}
+	for _, h := range hs {
+		relSet[h.Pkg] = true
+	}
+	var rels []string
+	for r := range relSet {
+		rels = append(rels, r)
+	}
+	sort.Strings(rels)
+	ov := buildOverlay(rels, files, hs, false)
+	cfg := &packages.Config{Mode: packages.LoadAllSyntax, Dir: repoDir, Overlay: ov,
+		Env: append(os.Environ(), "GOFLAGS=-mod=mod", "GOPROXY=off", "GOSUMDB=off", "GOTOOLCHAIN=local")}
+	var pats []string
+	for _, r := range rels {
+		pats = append(pats, "./"+r)
+	}
+	pkgs, err := packages.Load(cfg, pats...)
+	if err != nil {
+		fatal(err)
+	}
+	for _, p := range pkgs {
+		uses := map[string]map[string]bool{}
+		for id, obj := range p.TypesInfo.Uses {
+			if obj == nil || obj.Pkg() == nil || obj.Pkg() != p.Types || obj.Exported() {
+				continue
+			}
+			usePos := p.Fset.Position(id.Pos())
+			defPos := p.Fset.Position(obj.Pos())
+			if !strings.HasPrefix(filepath.Base(usePos.Filename), "zz_verif_") || strings.HasPrefix(filepath.Base(defPos.Filename), "zz_verif_") {
+				continue
+			}
+			// only package-level objects, fields and methods (locals cannot be named from another file anyway)
+			name := obj.Name()
+			if v, ok := obj.(*types.Var); ok && v.IsField() {
+				name = "field " + name
+			} else if f, ok := obj.(*types.Func); ok && f.Type().(*types.Signature).Recv() != nil {
+				name = "method " + name
+			} else if obj.Parent() != p.Types.Scope() {
+				continue
+			}
+			if uses[name] == nil {
+				uses[name] = map[string]bool{}
+			}
+			uses[name][filepath.Base(usePos.Filename)] = true
+		}
+		var names []string
+		for n := range uses {
+			names = append(names, n)
+		}
+		sort.Strings(names)
+		fmt.Printf("%s: %d unexported identifiers named by harnesses\n", p.PkgPath, len(names))
+		for _, n := range names {
+			var fs []string
+			for f := range uses[n] {
+				fs = append(fs, f)
+			}
+			sort.Strings(fs)
+			fmt.Printf("  %-40s %s\n", n, strings.Join(fs, " "))
+		}
+	}
 }
 
 // doReplay re-runs one recorded counterexample natively against /repo's
